@@ -11,7 +11,7 @@
     [tuple_of a] reads the same five numbers off a model DateTime<FixedOffset>.
     A value of the case protocol [value y o secs frac off] is decoded by [dec_dtz] exactly as the
     harness decodes it (NaiveDate::from_yo_opt etc.). *)
-From Coq Require Import ZArith List Bool.
+From Coq Require Import ZArith List Bool String.
 From V Require Import Base.Int Base.IO Base.Utf8 Model.Scan Model.DateTime Model.C10 Spec.Gregorian Spec.Rfc3339
   Proofs.Utf8 Proofs.Scan Proofs.C10 Proofs.C10Writer Proofs.C10Main.
 Import ListNotations.
@@ -101,3 +101,44 @@ Print Assumptions C10_offset_format.
 Theorem C10_write_hundreds : forall w n, 0 <= n < 100 -> write_hundreds w n = Some (w ++ two n).
 Proof. exact write_hundreds_spec. Qed.
 Print Assumptions C10_write_hundreds.
+
+(** ** Exact acceptance in relational form: Ok v <-> exists fields, G3339 fields s /\ valid /\ v = denote *)
+Theorem C10_accept_exact_rel : forall s, utf8_valid s = true ->
+  (forall a, parse_from_rfc3339 s = Val (POk a) ->
+     exists f, G3339 f s /\ valid f = true /\ tuple_of a = denote f) /\
+  (forall f, G3339 f s -> valid f = true ->
+     exists a, parse_from_rfc3339 s = Val (POk a) /\ tuple_of a = denote f) /\
+  ((forall f, G3339 f s -> valid f = false) -> exists e, parse_from_rfc3339 s = Val (PErr e)).
+Proof. exact accept_exact_rel. Qed.
+Print Assumptions C10_accept_exact_rel.
+
+(* the executable recogniser decides the generator relation *)
+Theorem C10_recognise_iff : forall s f, recognise s = Some f <-> G3339 f s.
+Proof. exact recognise_iff. Qed.
+Print Assumptions C10_recognise_iff.
+
+(* scan::timezone_offset (mandatory colon, Z allowed) inverts OffsetFormat::format *)
+Theorem C10_timezone_offset_inverts_format : forall w off use_z rest,
+  -86400 < off < 86400 -> off mod 60 = 0 -> utf8_valid rest = true ->
+  exists t, offset_format_format (mk_of 1 1 use_z 1) w off = Val (Some (w ++ t)) /\
+            timezone_offset (t ++ rest) (fun s => char s 58) true false true = Val (POk (rest, off)).
+Proof. exact timezone_offset_inverts_format. Qed.
+Print Assumptions C10_timezone_offset_inverts_format.
+
+(* DateTime::to_rfc3339 (AutoSi, no Z) *)
+Theorem C10_to_rfc3339 : forall y o secs frac off a,
+  dec_dtz (value y o secs frac off) = Some a -> writer_domain y o secs frac off 4 ->
+  to_rfc3339 a = Val (render (fields_of y o secs frac off 4 false)).
+Proof. exact to_rfc3339_main. Qed.
+Print Assumptions C10_to_rfc3339.
+
+(* hypotheses are inhabited *)
+Example C10_roundtrip_example :
+  exists a, dec_dtz (value 1996 354 2397 500000000 (-28800)) = Some a /\ writer_domain 1996 354 2397 500000000 (-28800) 4 /\
+  render (fields_of 1996 354 2397 500000000 (-28800) 4 true) = B"1996-12-18T16:39:57.500-08:00".
+Proof. exact roundtrip_example. Qed.
+Print Assumptions C10_roundtrip_example.
+Example C10_accept_example : accepts B"1990-12-31T23:59:60Z" = Some (1990, 365, 86399, 1000000000, 0)
+  /\ accepts B"2015-02-18T23:16:09+24:00" = None /\ utf8_valid B"1990-12-31T23:59:60Z" = true.
+Proof. exact accept_example. Qed.
+Print Assumptions C10_accept_example.
